@@ -385,6 +385,39 @@ func c06Globals(w *World, r *Report) {
 					if c := ci.Common().StaticCallee(); c != nil {
 						callers[c] = append(callers[c], fn)
 					}
+					// a package-level object handed to a callee that writes through the receiving
+					// parameter is written here (e.g. a shared parser instance whose Parse method
+					// updates its own state)
+					cc := ci.Common()
+					args := cc.Args
+					var callees []*ssa.Function
+					if cc.IsInvoke() {
+						args = append([]ssa.Value{cc.Value}, cc.Args...)
+						callees = eff.implementations(cc)
+					} else if c := cc.StaticCallee(); c != nil && eff.inModule(c) {
+						callees = []*ssa.Function{c}
+					}
+					for i, a := range args {
+						if !pointerLike(a.Type()) {
+							continue
+						}
+						gl := eff.rootsOf(a).globals
+						if len(gl) == 0 {
+							continue
+						}
+						for _, c := range callees {
+							if i >= len(c.Params) {
+								continue
+							}
+							if m, _, _ := eff.Mutates(slot{fn: c, idx: i}); m {
+								for g := range gl {
+									if g.Pkg != nil && inScope[g.Pkg] {
+										acc[g] = append(acc[g], access{fn, true, in.Pos()})
+									}
+								}
+							}
+						}
+					}
 				}
 				var addr ssa.Value
 				write := false
